@@ -363,6 +363,63 @@ var gcsPrograms = []string{
 	"let z = -x - -1; # trailing\n{ let w = null; }\nlet s = \"q\\\"uote\";",
 }
 
+
+// genExpr: a random well-formed gcs expression over the whole expression grammar (unary and
+// binary operators, calls on any callee, parentheses, maps, function literals), with a random
+// layout.  Used by the parse component so that operator/call grouping is compared tree-for-tree.
+func genExpr(r *rand.Rand, d int) string {
+	sp := func() string { return pick(r, "", " ", " ", "  ", "\n", " # c\n", "\t") }
+	if d <= 0 || r.Intn(4) == 0 {
+		return pick(r, "x", "y1", "f", "foo-bar", "1", "23", "4.5", ".5", "-7", "3.", "\"s\"", "true", "false", "null", "a%")
+	}
+	switch r.Intn(12) {
+	case 0, 1, 2:
+		op := pick(r, "+", "-", "*", "/", "<", "<=", ">", ">=", "==", "!=", "<>", "&&", "||")
+		return genExpr(r, d-1) + sp() + op + " " + genExpr(r, d-1)
+	case 3, 4:
+		// unary applied to anything, including calls and parenthesised expressions
+		return pick(r, "!", "- ", "!", "-  ") + genExpr(r, d-1)
+	case 5, 6:
+		// call: callee is an identifier, a call, a parenthesised expression or a function literal
+		callee := pick(r, "f", "g", "foo-bar", genExpr(r, d-1), "("+genExpr(r, d-1)+")")
+		n := r.Intn(3)
+		args := make([]string, n)
+		for i := range args {
+			args[i] = genExpr(r, d-1)
+		}
+		return callee + sp() + "(" + sp() + strings.Join(args, sp()+","+sp()) + sp() + ")"
+	case 7:
+		return "(" + sp() + genExpr(r, d-1) + sp() + ")"
+	case 8:
+		return "[" + genExpr(r, d-1) + "," + sp() + "k" + sp() + "=" + sp() + genExpr(r, d-1) + "]"
+	case 9:
+		return "fn(a, b) {" + sp() + "return " + genExpr(r, d-1) + ";" + sp() + "}"
+	case 10:
+		return pick(r, "!", "- ") + pick(r, "f", "g") + "(" + genExpr(r, d-1) + ")"
+	}
+	return genExpr(r, d-1)
+}
+
+func genStmtSrc(r *rand.Rand) string {
+	e := func() string { return genExpr(r, 1+r.Intn(3)) }
+	switch r.Intn(8) {
+	case 0:
+		return "let v = " + e() + ";"
+	case 1:
+		return "v = " + e() + ";"
+	case 2:
+		return "if " + e() + " { v = " + e() + "; } else { return " + e() + "; }"
+	case 3:
+		return "while " + e() + " { " + e() + "; }"
+	case 4:
+		return "switch " + e() + " { case " + e() + ": " + e() + "; default: " + e() + "; }"
+	case 5:
+		return "for let i = " + e() + "; " + e() + "; i = " + e() + " { " + e() + "; }"
+	default:
+		return e() + ";"
+	}
+}
+
 func mutate(r *rand.Rand, b []byte) []byte {
 	if len(b) == 0 {
 		return b
@@ -408,6 +465,7 @@ func (g gcsComp) Gen(r *rand.Rand, tier string, n int) []*wire.Case {
 	add("d-comments", "# only", "// only", "x; # c\ny;", "x // c", "/", "/ /", "#\n#\n")
 	add("d-invalid-utf8", "\xff", "a\xffb", "\xc3", "\xe2\x82", "let \xff = 1;", "\"\xff\"")
 	add("d-idents", "foo", "foo-bar", "foo%", "_x", "été", "日本語", "x$", "x@y", "let", "letx", "true1", "null;", "a.b", "a|b", "a&b")
+	add("d-unary-call", "!f(x);", "let y = - g(1, 2);", "a && !done(t);", "!f(x)(y);", "-f(x) * 2;", "!(f)(x);", "! !f(x);", "- -x(1);", "f(x)(y)(z);", "(a + b)(c);", "fn(a){ return a; }(1);", "[1](2);")
 	add("d-ops", "= == > >= < <= <> != ! && || & |", "a&&b||c", "a<>b", "!a", "!=")
 	add("d-missing-parts", "let x = (1 + 2;", "let x = ; ;", "let x = ;", "let = 1;", "let x 1;", "x = ;", "if x { y = 1; ", "if { }", "while { }", "fn (a) { }", "fn f(a { }", "fn f(a,) { }",
 		"switch x { case : y; }", "switch x { y; }", "for let i = 0 i < 3 { }", "f(1,;", "f(1 2);", "[1, 2", "[a = ]", "return ;", "let x = 1 + ;", "let x = * 2;", "x = (;", "let x = ();")
@@ -423,7 +481,12 @@ func (g gcsComp) Gen(r *rand.Rand, tier string, n int) []*wire.Case {
 		var ops []*wire.Rec
 		for j := 0; j < 4; j++ {
 			var src []byte
-			switch r.Intn(4) {
+			switch r.Intn(6) {
+			case 4, 5: // grammar-directed well-formed statements
+				for k := 0; k < 1+r.Intn(3); k++ {
+					src = append(src, genStmtSrc(r)...)
+					src = append(src, ' ')
+				}
 			case 0: // fragment soup
 				for k := 0; k < 1+r.Intn(25); k++ {
 					src = append(src, gcsFragments[r.Intn(len(gcsFragments))]...)
